@@ -61,6 +61,12 @@ terms of the MIT license. A copy of the license can be found in the file
 #endif
 #endif
 
+#if defined(MI_VERIF_HOOKS)   // verification hooks (off by default): may re-route `mi_atomic(name)`
+#define MI_VERIF_HOOKS_PHASE 1
+#include MI_VERIF_HOOKS
+#undef MI_VERIF_HOOKS_PHASE
+#endif
+
 // Various defines for all used memory orders in mimalloc
 #define mi_atomic_cas_weak(p,expected,desired,mem_success,mem_fail)  \
   mi_atomic(compare_exchange_weak_explicit)(p,expected,desired,mem_success,mem_fail)
@@ -550,5 +556,10 @@ static inline void mi_lock_done(mi_lock_t* lock) {
 
 #endif
 
+#if defined(MI_VERIF_HOOKS)   // verification hooks (off by default): may re-route `mi_atomic_yield` and `mi_lock_*`
+#define MI_VERIF_HOOKS_PHASE 2
+#include MI_VERIF_HOOKS
+#undef MI_VERIF_HOOKS_PHASE
+#endif
 
 #endif // __MIMALLOC_ATOMIC_H
